@@ -85,7 +85,7 @@ def run_case(case):
     pdf = pdfs.make(case["pdf"])
     fmat = np.array([[pdf.f(pid, xj) for xj in xg] for pid in cards.PIDS])
     viol, nontrivial, classes = [], set(), {case["proc"] if case["proc"] != "EM" else "NC", flavour}
-    xc = "vlowx" if case["x"] < 2e-3 else ("lowx" if case["x"] < 0.05 else "midx")
+    xc = "vlowx" if case["x"] < 3e-3 else ("lowx" if case["x"] < 0.05 else "midx")
     compared, margin = 0, 0.0
     traj = {}
     # LO parton-model size for normalisation (F2 of the same heavyness, massless scheme part)
@@ -101,7 +101,7 @@ def run_case(case):
             Nc = float(np.sum(np.abs(a * fmat))) + float(np.sum(np.abs(b * fmat))) + n0 * float(np.max(np.abs(fmat)))
             con.append(abs(float(np.sum((a - b) * fmat))) / Nc)
             if i == 0 and run.absmax(a) > 0:
-                nontrivial.add(f"{kind}|{case['proc']}|{flavour}|{case['heavy']}|o{o}|{'vlowx' if case['x'] < 2e-3 else ('lowx' if case['x'] < 0.05 else 'midx')}")
+                nontrivial.add(f"{kind}|{case['proc']}|{flavour}|{case['heavy']}|o{o}|{'vlowx' if case['x'] < 3e-3 else ('lowx' if case['x'] < 0.05 else 'midx')}")
         traj[o] = dict(entry=ent, contracted=con)
         classes.add(f"o{o}")
         for label, seq, K in (("entrywise", ent, K_ENTRY), ("contracted", con, K_CONTRACTED)):
